@@ -13,6 +13,7 @@ import argparse, os, random, re, shutil, subprocess, sys, json, time
 
 ROOT = os.path.dirname(os.path.dirname(os.path.abspath(__file__)))
 SCR = "/var/tmp/tbfsim_mutcamp_repo"
+PRISTINE = "/var/tmp/tbfsim_mutcamp_pristine"   # private copy of /repo taken at start: /repo itself may be patched temporarily by other tools meanwhile
 BLD = "/var/tmp/tbfsim_mutcamp_build"
 FILES = [
     "src/algorithms/openmp/tbfopenmpalgorithm.hpp", "src/algorithms/openmp/tbfopenmpalgorithmtsm.hpp",
@@ -85,9 +86,13 @@ def main():
     ap.add_argument("--out", default=os.path.join(ROOT, "seeded", "MUTATION.md"))
     ap.add_argument("--workers", type=int, default=8)
     a = ap.parse_args()
+    shutil.rmtree(PRISTINE, ignore_errors=True)
+    sh(["rsync", "-a", "--exclude", "_build", "--exclude", ".git", "/repo/", PRISTINE + "/"])
+    if sh(["git", "-C", "/repo", "diff", "--quiet"]).returncode != 0:
+        print("/repo has uncommitted changes: refusing to take it as the pristine tree"); sys.exit(2)
     all_m = []
     for f in FILES:
-        all_m += mutants_of(f, open(os.path.join("/repo", f)).read())
+        all_m += mutants_of(f, open(os.path.join(PRISTINE, f)).read())
     rnd = random.Random(a.seed)
     rnd.shuffle(all_m)
     chosen = all_m[:a.sample]
@@ -95,13 +100,13 @@ def main():
     shutil.rmtree(SCR, ignore_errors=True)
     rows = []
     try:
-        sh(["rsync", "-a", "--delete", "--exclude", "_build", "--exclude", ".git", "/repo/", SCR + "/"])
+        sh(["rsync", "-a", "--delete", PRISTINE + "/", SCR + "/"])
         previous = None
         for n, (path, li, old, new, what) in enumerate(chosen):
             # restore the file of the previous mutant with a NEW modification time (rsync -a would restore the old one and make
             # would then keep the objects built from the mutated header)
             if previous:
-                shutil.copyfile(os.path.join("/repo", previous), os.path.join(SCR, previous))
+                shutil.copyfile(os.path.join(PRISTINE, previous), os.path.join(SCR, previous))
                 os.utime(os.path.join(SCR, previous), None)
             previous = path
             p = os.path.join(SCR, path)
@@ -133,7 +138,7 @@ def main():
                     break
             rows.append((path, li + 1, what, verdict, by)); print(rows[-1], flush=True)
     finally:
-        shutil.rmtree(SCR, ignore_errors=True); shutil.rmtree(BLD, ignore_errors=True); shutil.rmtree("/var/tmp/tbfsim_mutcamp_ev", ignore_errors=True)
+        shutil.rmtree(SCR, ignore_errors=True); shutil.rmtree(PRISTINE, ignore_errors=True); shutil.rmtree(BLD, ignore_errors=True); shutil.rmtree("/var/tmp/tbfsim_mutcamp_ev", ignore_errors=True)
     valid = [r for r in rows if r[3] != "does-not-compile"]
     killed = [r for r in valid if r[3].startswith("killed")]
     with open(a.out, "w") as f:
